@@ -1,6 +1,9 @@
 extern crate iceoryx2_bb_loggers;
 mod common;
 mod c01_pubsub;
+mod c11_reqres;
+mod c18_ffi;
+mod c20_waitset;
 mod c15_alloc;
 mod c16_vec;
 mod c19_names;
@@ -35,6 +38,9 @@ fn main() {
     }
     match comp {
         "pubsub" => go!(c01_pubsub::generate, || c01_pubsub::PubSubComp::new()),
+        "reqres" => go!(c11_reqres::generate, || c11_reqres::ReqResComp::new()),
+        "waitset" => go!(c20_waitset::generate, || c20_waitset::WaitSetComp::new()),
+        "ffi" => go!(c18_ffi::generate, || c18_ffi::FfiComp::new()),
         "alloc" => go!(c15_alloc::generate, || c15_alloc::AllocComp::new()),
         "names" => go!(c19_names::generate, || c19_names::NamesComp::new()),
         "vec" => go!(c16_vec::generate, || c16_vec::VecComp::new()),
